@@ -278,3 +278,141 @@ Proof.
   intros Hok E. unfold load_aof, load_aof_sz. apply (load_chunks_cut cmds q s); try assumption.
   apply split_chunks_concat; [|lia]. unfold chunk_size. lia.
 Qed.
+
+(* ---------- tear + padding together: any byte prefix of a log with zero runs at command boundaries ---------- *)
+Lemma prefix_of_repeat (a : N) : forall n (q s : bytes), q ++ s = repeat a n -> q = repeat a (length q).
+Proof.
+  induction n as [|n IH]; intros q s E; cbn [repeat] in E.
+  - apply app_eq_nil in E. destruct E as [-> _]. reflexivity.
+  - destruct q as [|x q]; [reflexivity|]. cbn [app] in E. inversion E; subst. cbn [length repeat]. f_equal. eapply IH; eauto.
+Qed.
+
+Lemma drain_only_zeros k fuel : (k < fuel)%nat -> drain fuel (repeat 0%N k) = DOk [] [].
+Proof.
+  intros H. replace fuel with (k + (fuel - k))%nat by lia.
+  rewrite <- (app_nil_r (repeat 0%N k)). rewrite drain_zeros.
+  destruct (fuel - k)%nat eqn:G; [lia|]. reflexivity.
+Qed.
+
+Lemma drain_cut_padded : forall l ztail q s fuel,
+  Forall (fun zc => cmd_ok (snd zc)) l -> q ++ s = padded l ++ repeat 0%N ztail -> (length q < fuel)%nat ->
+  exists n z' lo,
+    q = padded (firstn n l) ++ repeat 0%N z' ++ lo /\
+    drain fuel q = DOk (map snd (firstn n l)) lo.
+Proof.
+  induction l as [|[z c] l IH]; intros ztail q s fuel Hok E Hf.
+  - cbn [padded app] in E. apply prefix_of_repeat in E.
+    exists O, (length q), []. cbn [firstn padded map app]. rewrite app_nil_r. split; [exact E|].
+    set (k := length q) in *. rewrite E. apply drain_only_zeros. exact Hf.
+  - inversion Hok as [|? ? [Hne Hbig] Hok']; subst. cbn [snd] in *.
+    cbn [padded] in E. rewrite <- !app_assoc in E.
+    assert (Hhead : exists t, enc c = 42%N :: t) by (unfold enc; eauto). destruct Hhead as [t Ht].
+    apply app_eq_app in E. destruct E as [l1 [[Eq Es]|[Eq Es]]].
+    + (* the zero run is inside q *)
+      subst q. rewrite app_length, repeat_length in Hf.
+      assert (Hcomplete : forall l2, l1 = enc c ++ l2 -> l2 ++ s = padded l ++ repeat 0%N ztail ->
+        exists n z' lo, repeat 0%N z ++ l1 = padded (firstn n ((z, c) :: l)) ++ repeat 0%N z' ++ lo /\
+                        drain fuel (repeat 0%N z ++ l1) = DOk (map snd (firstn n ((z, c) :: l))) lo).
+      { intros l2 -> Es2. rewrite app_length in Hf.
+        assert (1 <= length (enc c))%nat by (rewrite Ht; cbn [length]; lia).
+        destruct (IH ztail l2 s (fuel - z - 1)%nat Hok' Es2 ltac:(lia)) as [n [z' [lo [Q D]]]].
+        exists (S n), z', lo. cbn [firstn padded map snd]. split.
+        - rewrite Q. rewrite <- !app_assoc. reflexivity.
+        - replace fuel with (z + S (fuel - z - 1))%nat by lia. rewrite drain_zeros.
+          rewrite Ht. cbn [app]. rewrite drain_star. change (42%N :: t ++ l2) with ((42%N :: t) ++ l2). rewrite <- Ht.
+          rewrite read_next_enc by assumption. rewrite D. destruct c; [congruence|reflexivity]. }
+      symmetry in Es. apply app_eq_app in Es. destruct Es as [l2 [[Eq2 Es2]|[Eq2 Es2]]].
+      * apply (Hcomplete l2); congruence.
+      * (* enc c = l1 ++ l2 : q ends inside (or exactly at the end of) the command *)
+        destruct l2 as [|x l2].
+        -- rewrite app_nil_r in Eq2. cbn [app] in Es2. apply (Hcomplete []); [rewrite app_nil_r; congruence|cbn [app]; congruence].
+        -- exists O, z, l1. cbn [firstn padded map app]. split; [reflexivity|].
+           replace fuel with (z + (fuel - z))%nat by lia. rewrite drain_zeros.
+           destruct (fuel - z)%nat as [|g] eqn:G; [lia|].
+           destruct l1 as [|y l1]; [reflexivity|].
+           rewrite Ht in Eq2. cbn [app] in Eq2. inversion Eq2; subst y.
+           rewrite drain_star.
+           rewrite (read_next_enc_cut c (42%N :: l1) (x :: l2) Hne Hbig); [reflexivity| |discriminate].
+           rewrite Ht. cbn [app]. congruence.
+    + (* q ends inside the zero run *)
+      symmetry in Eq. apply prefix_of_repeat in Eq.
+      exists O, (length q), []. cbn [firstn padded map app]. rewrite app_nil_r. split; [exact Eq|].
+      set (k := length q) in *. rewrite Eq. apply drain_only_zeros. exact Hf.
+Qed.
+
+Theorem load_whole_cut_padded l ztail q s :
+  Forall (fun zc => cmd_ok (snd zc)) l -> q ++ s = padded l ++ repeat 0%N ztail ->
+  exists n z' lo,
+    q = padded (firstn n l) ++ repeat 0%N z' ++ lo /\
+    load_whole q = Loaded (map snd (firstn n l)) (len (padded (firstn n l)) + Z.of_nat z').
+Proof.
+  intros Hok E. destruct (drain_cut_padded l ztail q s (S (length q)) Hok E ltac:(lia)) as [n [z' [lo [Q D]]]].
+  exists n, z', lo. split; [exact Q|]. unfold load_whole, drain_all. rewrite D. f_equal.
+  rewrite Q at 1. rewrite !len_app. rewrite (len_spec (repeat 0%N z')), repeat_length. lia.
+Qed.
+
+Lemma padded_prefix_no_panic l ztail q s : Forall (fun zc => cmd_ok (snd zc)) l ->
+  q ++ s = padded l ++ repeat 0%N ztail -> forall k, drain_all (firstn k q) <> DPanic.
+Proof.
+  intros Hok E k.
+  assert (Ek : firstn k q ++ (skipn k q ++ s) = padded l ++ repeat 0%N ztail) by (rewrite app_assoc, firstn_skipn; exact E).
+  destruct (drain_cut_padded l ztail (firstn k q) (skipn k q ++ s) (S (length (firstn k q))) Hok Ek ltac:(lia)) as [n [z' [lo [_ D]]]].
+  unfold drain_all. rewrite D. discriminate.
+Qed.
+
+Lemma chunk_size_pos : (0 < chunk_size)%nat.
+Proof. unfold chunk_size. lia. Qed.
+
+(* the same for loadAOF's own 0xFFFF-chunked loop *)
+Theorem load_aof_cut_padded l ztail q s :
+  Forall (fun zc => cmd_ok (snd zc)) l -> q ++ s = padded l ++ repeat 0%N ztail ->
+  exists n z' lo,
+    q = padded (firstn n l) ++ repeat 0%N z' ++ lo /\
+    load_aof q = Loaded (map snd (firstn n l)) (len (padded (firstn n l)) + Z.of_nat z').
+Proof.
+  intros Hok E. destruct (load_whole_cut_padded l ztail q s Hok E) as [n [z' [lo [Q L]]]].
+  exists n, z', lo. split; [exact Q|]. rewrite <- L.
+  apply load_aof_sz_eq_whole; [apply chunk_size_pos|]. apply (padded_prefix_no_panic l ztail q s); assumption.
+Qed.
+
+Theorem load_aof_padded l ztail : Forall (fun zc => cmd_ok (snd zc)) l ->
+  load_aof (padded l ++ repeat 0%N ztail) = Loaded (map snd l) (len (padded l ++ repeat 0%N ztail)).
+Proof.
+  intros Hok. rewrite <- (load_whole_padded l ztail Hok).
+  apply load_aof_sz_eq_whole; [apply chunk_size_pos|].
+  apply (padded_prefix_no_panic l ztail _ []); [assumption|apply app_nil_r].
+Qed.
+
+Theorem load_aof_after_append cmds q s more :
+  Forall cmd_ok cmds -> Forall cmd_ok more -> q ++ s = encs cmds ->
+  let kept := firstn (inside cmds (len q)) cmds in
+  load_aof q = Loaded kept (len (encs kept)) /\
+  load_aof (encs kept ++ encs more) = Loaded (kept ++ more) (len (encs kept ++ encs more)).
+Proof.
+  intros Hok Hmore E kept.
+  destruct (load_after_append cmds q s more Hok Hmore E) as [_ L2]. fold kept in L2.
+  split; [apply (load_aof_cut cmds q s); assumption|].
+  rewrite <- L2. apply load_aof_sz_eq_whole; [apply chunk_size_pos|].
+  rewrite <- encs_app. intros k.
+  assert (Hk : Forall cmd_ok (kept ++ more)).
+  { apply Forall_app; split; [|assumption]. unfold kept. clear - Hok.
+    generalize (inside cmds (len q)) as n. intros n. revert n.
+    induction Hok as [|c cs Hc Hcs IH]; intros [|n]; cbn [firstn]; constructor; auto. }
+  assert (Ek : firstn k (encs (kept ++ more)) ++ skipn k (encs (kept ++ more)) = encs (kept ++ more)) by apply firstn_skipn.
+  destruct (drain_cut (kept ++ more) _ _ (S (length (firstn k (encs (kept ++ more))))) Hk Ek ltac:(lia)) as [lo [D _]].
+  unfold drain_all. rewrite D. discriminate.
+Qed.
+
+(* A torn command FOLLOWED by zero padding (what a crash during an append leaves on a file system
+   that zero-extends) is not recovered: once enough NULs stand where the rest of the bulk and its
+   CRLF should be, the parser reports "invalid bulk length" and loadAOF returns the error.
+   Witness: SET k "hello world" torn after "hello", then 64 NULs. *)
+Lemma torn_then_padded_fails :
+  let c1 := [[83; 69; 84]; [107]; [118]]%N in
+  let c2 := [[83; 69; 84]; [107]; [104; 101; 108; 108; 111; 32; 119; 111; 114; 108; 100]]%N in
+  let q := firstn 53 (encs [c1; c2]) in
+  cmd_ok c1 /\ cmd_ok c2 /\ (length q < length (encs [c1; c2]))%nat /\
+  load_whole q = Loaded [c1] 27 /\
+  load_aof (q ++ repeat 0%N 64) = LoadErr EBulk /\
+  load_aof (q ++ repeat 0%N 5) = Loaded [c1] 27.
+Proof. vm_compute. repeat split; congruence || lia. Qed.
